@@ -164,6 +164,7 @@ WithAct(n, p, r, c) ==
            [] kind = 4 -> IF vid % 3 = 0 THEN RF ELSE r
            [] kind = 5 -> IF (len + vid) % 3 = 0 THEN RX(XActForeign, p) ELSE r
            [] kind = 6 -> IF (len + vid) % 3 = 0 THEN RX(XActParseError, p) ELSE r
+           [] kind = 7 -> IF vid % 3 = 0 THEN RX(XActForeign, p) ELSE r
            [] OTHER    -> r
    ELSE r
 
